@@ -111,8 +111,15 @@ type progGen struct {
 	// topk/bottomk break ties by input order, and the engine emits the result of an aggregation in
 	// map order, so a program that post-processes a topk is not a function of its input. They are
 	// only drawn at the root, where the selected values (not the identities) can be compared.
-	atRoot   bool
-	rootK    *rootTopk
+	atRoot bool
+	rootK  *rootTopk
+	// exact > 0 while the operand of a discretising operator (comparison, ceil, sgn, clamp_max,
+	// count_values) is generated. The engine emits aggregation results in map order, so sums of
+	// non-dyadic values (rate, avg, stddev, division) may differ in the last bit between two
+	// correct evaluations; a discretising operator would turn that into a different series. In
+	// exact mode only productions whose float arithmetic is exact on the dyadic sample values are
+	// drawn.
+	exact    int
 	features map[string]bool
 }
 
@@ -207,6 +214,9 @@ func (g *progGen) leaf() string {
 		return g.selector()
 	default:
 		g.feat("range-function")
+		if g.exact > 0 {
+			return pickStr(g, "rfnx", "sum_over_time", "max_over_time", "min_over_time", "count_over_time", "last_over_time") + "(" + g.rangeSel() + ")"
+		}
 		return pickStr(g, "rfn", "rate", "rate", "increase", "delta", "sum_over_time", "max_over_time", "count_over_time", "last_over_time", "avg_over_time") + "(" + g.rangeSel() + ")"
 	}
 }
@@ -221,6 +231,15 @@ func (g *progGen) agg(depth int) string {
 	op := pickStr(g, "aggop", "sum", "sum", "sum", "min", "max", "avg", "count", "group", "stddev", "quantile", "topk", "bottomk", "count_values")
 	if (op == "topk" || op == "bottomk") && !root {
 		op = map[string]string{"topk": "max", "bottomk": "min"}[op]
+	}
+	if g.exact > 0 {
+		if x, ok := map[string]string{"avg": "sum", "stddev": "max", "quantile": "min"}[op]; ok {
+			op = x
+		}
+	}
+	if op == "count_values" {
+		g.exact++
+		defer func() { g.exact-- }()
 	}
 	param := ""
 	switch op {
@@ -250,17 +269,55 @@ func (g *progGen) agg(depth int) string {
 	if op == "topk" || op == "bottomk" {
 		g.rootK = rk
 	}
-	return op + mod + " (" + param + g.vec(depth-1) + ")"
+	inner := ""
+	if rk.grouped && g.n("dynInner", 6) == 0 {
+		// the operand rewrites a label the grouping depends on (by: a listed label; without: a
+		// label that is not listed) from another label - the analyzer's "dynamic label" case.
+		var dst string
+		for _, l := range []string{"a", "b", "c"} {
+			if contains(rk.labels, l) == rk.by {
+				dst = l
+				break
+			}
+		}
+		if dst != "" {
+			src := map[string]string{"a": "b", "b": "c", "c": "a"}[dst]
+			g.feat("label_replace-join")
+			g.feat("grouping-label-rewritten")
+			inner = fmt.Sprintf(`label_replace(%s, %q, "$1", %q, "(.*)")`, g.vec(depth-1), dst, src)
+		}
+	}
+	if inner == "" {
+		inner = g.vec(depth - 1)
+	}
+	return op + mod + " (" + param + inner + ")"
+}
+
+func contains(xs []string, x string) bool {
+	for _, y := range xs {
+		if y == x {
+			return true
+		}
+	}
+	return false
 }
 
 var arith = []string{"+", "-", "*", "/"}
 var cmp = []string{">", "<", "==", "!=", ">=", "<="}
 var setOps = []string{"and", "or", "unless"}
 
+func (g *progGen) arithOp() string {
+	op := arith[g.n("arith", len(arith))]
+	if g.exact > 0 && op == "/" {
+		op = "*"
+	}
+	return op
+}
+
 func (g *progGen) binOp() (op string, isSet, isCmp bool) {
 	switch g.n("opkind", 6) {
 	case 0, 1, 2:
-		return arith[g.n("arith", len(arith))], false, false
+		return g.arithOp(), false, false
 	case 3:
 		return cmp[g.n("cmp", len(cmp))], false, true
 	default:
@@ -271,6 +328,10 @@ func (g *progGen) binOp() (op string, isSet, isCmp bool) {
 func (g *progGen) binVV(depth int) string {
 	g.feat("binary-vector-vector")
 	op, isSet, isCmp := g.binOp()
+	if isCmp {
+		g.exact++
+		defer func() { g.exact-- }()
+	}
 	boolMod := ""
 	if isCmp && g.n("bool", 3) == 0 {
 		boolMod = " bool"
@@ -280,6 +341,9 @@ func (g *progGen) binVV(depth int) string {
 		l1 := g.labelList("l1", []string{"a", "b", "c"}, []int{2, 2, 3})
 		l2 := l1[:1+g.n("l2", len(l1)-1)]
 		aggop := pickStr(g, "aggop2", "sum", "max", "count", "avg")
+		if g.exact > 0 && aggop == "avg" {
+			aggop = "sum"
+		}
 		group := ""
 		if !isSet && len(l2) < len(l1) {
 			g.feat("group-left-right")
@@ -345,11 +409,13 @@ func (g *progGen) binVS(depth int) string {
 		if g.n("bool", 3) == 0 {
 			op += " bool"
 		}
+		g.exact++
+		defer func() { g.exact-- }()
 		return fmt.Sprintf("(%s) %s %s", g.vec(depth-1), op, sc)
 	case 1:
-		return fmt.Sprintf("%s %s (%s)", sc, arith[g.n("arith", len(arith))], g.vec(depth-1))
+		return fmt.Sprintf("%s %s (%s)", sc, g.arithOp(), g.vec(depth-1))
 	default:
-		return fmt.Sprintf("(%s) %s %s", g.vec(depth-1), arith[g.n("arith", len(arith))], sc)
+		return fmt.Sprintf("(%s) %s %s", g.vec(depth-1), g.arithOp(), sc)
 	}
 }
 
@@ -358,8 +424,12 @@ func (g *progGen) fn1(depth int) string {
 	case 0:
 		return "abs(" + g.vec(depth-1) + ")"
 	case 1:
+		g.exact++
+		defer func() { g.exact-- }()
 		return "ceil(" + g.vec(depth-1) + ")"
 	case 2:
+		g.exact++
+		defer func() { g.exact-- }()
 		return "clamp_max(" + g.vec(depth-1) + ", 20)"
 	case 3:
 		return "-(" + g.vec(depth-1) + ")"
@@ -368,6 +438,8 @@ func (g *progGen) fn1(depth int) string {
 	case 5:
 		return "sort_desc(" + g.vec(depth-1) + ")"
 	case 6:
+		g.exact++
+		defer func() { g.exact-- }()
 		return "sgn(" + g.vec(depth-1) + ")"
 	default:
 		return "sort(" + g.vec(depth-1) + ")"
@@ -384,6 +456,9 @@ func (g *progGen) labelFn(depth int) string {
 }
 
 func (g *progGen) histQ(depth int) string {
+	if g.exact > 0 {
+		return g.agg(depth)
+	}
 	g.feat("histogram_quantile")
 	q := pickStr(g, "hq", "0.9", "0.5", "0.99")
 	var arg string
@@ -424,7 +499,11 @@ func (g *progGen) vec(depth int) string {
 		return g.histQ(depth)
 	case 19:
 		g.feat("subquery")
-		return pickStr(g, "sqfn", "max_over_time", "avg_over_time", "sum_over_time") + "((" + g.vec(depth-1) + ")[2m:30s])"
+		fn := pickStr(g, "sqfn", "max_over_time", "avg_over_time", "sum_over_time")
+		if g.exact > 0 && fn == "avg_over_time" {
+			fn = "min_over_time"
+		}
+		return fn + "((" + g.vec(depth-1) + ")[2m:30s])"
 	case 20:
 		g.feat("vector()")
 		switch g.n("vecshape", 3) {
